@@ -124,6 +124,11 @@ class KeyCondition(Condition):
 
     def _qasm_(self, args: cirq.QasmArgs, **kwargs) -> str | None:
         args.validate_version('2.0', '3.0')
+        if self.index != -1:
+            raise ValueError(
+                'A QASM condition reads the latest measurement of its register; '
+                f'a condition on record {self.index} of key {self.key} cannot be exported.'
+            )
         key_str = str(self.key)
         if key_str not in args.meas_key_id_map:
             raise ValueError(f'Key "{key_str}" not in QasmArgs.meas_key_id_map.')
